@@ -21,7 +21,7 @@ ENTRY = dict(
                    "according to a permitted plan (CutWire immediately before the gate on its input qubit, cut gates wrapped), the "
                    "metadata lists exactly the marker positions/kinds, the overhead is the product kappa^2 / 16-per-marker over that "
                    "plan, every component of the independent wire-segment graph of the output has at most W segments; a ValueError "
-                   "(supported two-qubit gates, valid settings, >=1 cut kind) only if no permitted plan is feasible; never any other "
+                   "(supported two-qubit gates, valid settings, all four cut-kind combinations) only if no permitted plan is feasible; never any other "
                    "exception (all assertions incl. those of export_cuts unreachable); explicit fuel bound. Closed under the global "
                    "context. The model is run against the implementation on >450 (quick) / >7000 (thorough) generated cases per run, "
                    "comparing the output circuit, metadata, final and greedy search state, SearchStats, random-tape consumption and "
@@ -47,7 +47,21 @@ ENTRY = dict(
             "cases where the model took that branch unless CKT_C07_STRICT=1 (that flag is property C08's subject)",
             "theorem hypotheses: circ_wf (multi-qubit non-barrier instructions act on exactly two distinct qubits), circ_plain (gates "
             "and barriers only) for the segment-graph theorems; circuits with classical bits are refused by cut_gates and lie outside "
-            "the property's domain; the no-cut-kind configuration (gate_lo = wire_lo = False) is excluded from "
-            "c07_fails_only_if_infeasible",
+            "the property's domain",
+            "OBSERVATION (outside the quantifier 'circuits of one- and two-qubit gates (all supported families)'): a two-qubit "
+            "instruction that is not a Gate (gamma None, cannot be gate-cut) can make the greedy pass dead-end although a plan "
+            "exists; the truncated search (small max_gamma / max_backjumps) then ends in ValueError, e.g. cx(0,1); opaque2(1,2), W=2, "
+            "gate cuts only, max_gamma=2. The model reproduces this exactly (compared in the targeted stream); judge treats such "
+            "circuits as outside the domain; c07_fails_only_if_infeasible requires every multi-qubit gate to have a kappa",
+            "OBSERVATION (boundary of 'all gamma limits >= 1'): max_gamma = float('inf') together with a dead-ended greedy pass "
+            "raises OverflowError (int(np.ceil(np.log2(inf+1)-1)) in max_wire_cuts_gamma), e.g. cx(0,1) on 2+ qubits, W=1, wire "
+            "cuts only, max_gamma=inf: OverflowError instead of the ValueError raised for every finite limit. The model's Q has no "
+            "infinity; the harness records the behaviour in the histogram observation.max_gamma_inf and neither compares nor "
+            "judges it (c07_export_never_crashes speaks about finite limits only)",
+            "harness contracts: judge_accepts_clean_case (the property-level oracle is run on every generated case and must accept "
+            "it), wide_stream_judge_ok (judge-only stream without model comparison: all registered gate families with random "
+            "angles, 9-10 qubits, up to 25 two-qubit gates, several registers, global phase, labels, searches and gammas beyond "
+            "the model-evaluation budget); the judge also re-analyses barrier-free outputs with the package's own "
+            "cut_wires + partition_problem",
         ],
     )
